@@ -665,8 +665,9 @@ class EFloatContext(EncodableContext):
                 if self.nan_kind != EFloatNanKind.NONE:
                     return Float.nan(s=x.s, ctx=self)._with_flags(x)
                 return self.maxval(s=x.s)._with_flags(x)
-            return Float(s=x.s, x=self.inf_value, ctx=self)._with_flags(x)
-        elif x.is_zero() and x.s and self.nan_kind == EFloatNanKind.NEG_ZERO:
+            # the substitute takes the operand's sign, which may make it `-0`
+            x = Float(s=x.s, x=self.inf_value, ctx=self)._with_flags(x)
+        if x.is_zero() and x.s and self.nan_kind == EFloatNanKind.NEG_ZERO:
             return Float(x=x, s=False, ctx=self)._with_flags(x)
         return x
 
